@@ -99,7 +99,8 @@ def tie(ctx):
         raise RuntimeError(f"model driver failed: {errs[0]['detail']}")
     if errs:
         return dict(ok=False, stats=stats, fail=dict(what=f"harness could not drive the real code ({errs[0]['name']})", detail=errs[0]['detail'], history=None))
-    viol = [dict(replay=dict(history=None, note=v), reason=v, signature='drawset:constructor') for r in good for v in r.get('viol', [])][:1]
+    viol = [dict(replay=dict(history=v['history'], note=v['msg']), reason=v['msg'], signature='drawset:locus') if isinstance(v, dict) else
+            dict(replay=dict(history=None, note=v), reason=v, signature='drawset:constructor') for r in good for v in r.get('viol', [])][:1]
     diffs = [r['diff'] for r in good if r['diff']]
     if diffs:
         return dict(ok=False, stats=stats, violations=viol, fail=diffs[0])
